@@ -21,7 +21,8 @@ def fz(t):
     return t
 
 
-def configs(tier):
+def configs(tier, icrules=None):
+    icrules = icrules or {"zero": [False, False, False], "d0v0": [True, True, False], "static": [False, False, True]}
     out = []
     for solver, kind in (("SolveUnc", "diag"), ("SolveUnc", "coupled"), ("SolveUnc_cdf", "cdamp"),
                          ("SolveCDF", "cdamp"), ("SolveExp2", "coupled"), ("SolveExp2", "diag"),
@@ -29,9 +30,9 @@ def configs(tier):
         for order in (1, 0):
             for (nrb, nel, nrf) in ((0, 3, 0), (2, 3, 2), (1, 2, 0), (0, 2, 1)):
                 for mform in ("none", "vec", "mat"):
-                    for ic in ("zero", "d0v0", "static"):
+                    for ic in sorted(icrules):
                         out.append(dict(solver=solver, kind=kind, order=order, nrb=nrb, nel=nel, nrf=nrf,
-                                        mform=mform, ic=ic))
+                                        mform=mform, ic=ic, icrule=[bool(x) for x in icrules[ic]]))
     return out
 
 
@@ -59,11 +60,11 @@ def build(cfg, seed):
     fvec = rng.standard_normal((n, 64)) * rng.uniform(0.5, 2.0, (n, 1))
     d0 = v0 = None
     static_ic = False
-    if cfg["ic"] == "d0v0":
-        d0 = rng.standard_normal(n) * 1e-3
-        v0 = rng.standard_normal(n) * 1e-1
-    elif cfg["ic"] == "static":
-        static_ic = True
+    # the rule <<d0 given, v0 given, static_ic>> comes from the spec (OdeGen.tla IcRule)
+    d0given, v0given, static_ic = cfg.get("icrule") or {"zero": (False, False, False), "d0v0": (True, True, False), "static": (False, False, True)}[cfg["ic"]]
+    dd, vv = rng.standard_normal(n) * 1e-3, rng.standard_normal(n) * 1e-1
+    d0 = dd if d0given else None
+    v0 = vv if v0given else None
     return mk, fvec, d0, v0, static_ic, n
 
 
@@ -237,7 +238,7 @@ def body(run: Run, replay):
     run.rule = ("TLC enumerates all histories over {send(i) (1<=i<=cur+1), send(-1) add-on, finalize} up to the bound; "
                 "maximal histories are replayed into the real generator of each solver configuration "
                 "(SolveUnc diag / complex-coupled / cd_as_force, SolveCDF, SolveExp2; order 0/1; rb/el/rf blocks; m None/vec/mat; "
-                "zero / d0,v0 / static ic); after every action force, d, v (all columns) are compared with the spec's terms "
+                "the 7 initial-condition rules of the spec: zero / d0 / v0 / d0,v0 / static / static+d0 / static+v0); after every action force, d, v (all columns) are compared with the spec's terms "
                 "interpreted by the batch solver; distinct non-trivial = (configuration, history) pairs whose history contains a "
                 "jump back, a re-send or an add-on")
     run.assumptions = ["Step terms are interpreted by the batch solver's own two-sample tsolve (the property's oracle is the batch solver)",
@@ -273,9 +274,12 @@ def body(run: Run, replay):
         os.unlink(tmp.name)
         return
 
-    cfgs = configs(run.tier)
+    icr = res.tagged("ICRULES")
+    if not icr:
+        raise RuntimeError("no ICRULES export from TLC")
+    cfgs = configs(run.tier, dict(icr[0][0]))
     rnd = random.Random(run.seed)
-    per_cfg = 40 if run.tier == "quick" else 200
+    per_cfg = 30 if run.tier == "quick" else 150
     jobs = []
     for ci, cfg in enumerate(cfgs):
         pick = rnd.sample(leaves, min(per_cfg, len(leaves)))
